@@ -287,17 +287,73 @@ def dec(v):
     return v
 
 
-def run_in_flagged_child(module: str, func: str, units, flags=("-O",), timeout=600):
+def run_in_flagged_child(module: str, func: str, units, flags=("-O",), timeout=900, env_extra=None):
     """call  <module>.<func>(units)  in a child interpreter started with `flags` (e.g. -O / -OO: asserts and
-    `if __debug__:` blocks are compiled out) and return its (JSON) result"""
+    `if __debug__:` blocks are compiled out) and environment `env_extra` (XPROC_* knobs are applied by
+    mc.xproc_child before the library is imported) and return its (JSON) result"""
     import json
     import subprocess
 
-    code = ("import json,sys; from mc import common; common.bind_repo(); import importlib; "
-            f"m = importlib.import_module({module!r}); r = getattr(m, {func!r})(json.loads(sys.stdin.read())); "
+    code = ("import json,sys; from mc import xproc_child as xc; xc.apply_environment_knobs(); from mc import common; common.bind_repo(); "
+            "import importlib; "
+            f"m = importlib.import_module({module!r}); xc.after_import_knobs(); r = getattr(m, {func!r})(json.loads(sys.stdin.read())); "
             "sys.stdout.write('\\n@@RESULT@@' + json.dumps(common.jsonable(r)))")  # fmt: skip
     env = dict(os.environ, PYAB_REPO=REPO, PYTHONPATH=VERIF + os.pathsep + os.path.join(REPO, "src"), PYTHONDONTWRITEBYTECODE="1")
+    env.update(env_extra or {})
     p = subprocess.run([sys.executable, *flags, "-c", code], input=json.dumps(units), capture_output=True, text=True, timeout=timeout, env=env, cwd=VERIF)
     if p.returncode != 0 or "@@RESULT@@" not in p.stdout:
-        raise HarnessFault(f"child interpreter {flags} failed: {p.stderr[-600:]}")
+        raise HarnessFault(f"child interpreter {flags} {env_extra} failed: {p.stderr[-800:]}")
     return json.loads(p.stdout.split("@@RESULT@@", 1)[1])
+
+
+HOSTILE = [  # (interpreter flags, environment) of host applications the library may find itself in
+    ((), {"XPROC_FAST_CLOCK": "1", "TZ": "Pacific/Kiritimati", "HOME": "/nonexistent", "USER": "nobody"}),
+    (("-O",), {"XPROC_DECIMAL_PREC": "2", "XPROC_WARN_ERROR": "1"}),
+    (("-OO",), {"XPROC_RECURSION": "4000", "XPROC_NOGC": "1", "PYTHONHASHSEED": "12345"}),
+]
+
+
+def hostile_runs(res, module: str, func: str, units):
+    """repeat a small part of a check in child interpreters that imitate unusual host applications (plus every
+    environment variable the library's source mentions set to junk); violations carry the configuration"""
+    junk = {n: "xproc-junk" for n in library_env_names() if not n.startswith(("XPROC_", "PYAB_REPO"))}
+    configs = list(HOSTILE) + ([((), junk)] if junk else [])
+    from concurrent.futures import ThreadPoolExecutor
+
+    def one(cfg):
+        flags, env = cfg
+        return cfg, run_in_flagged_child(module, func, units, flags, env_extra=env)
+
+    with ThreadPoolExecutor(len(configs)) as ex:
+        for (flags, env), r in ex.map(one, configs):
+            for v in r.get("viol", []):
+                v["host_environment"] = {"flags": list(flags), "env": env}
+            r["outcomes"] = [f"host:{'/'.join(flags) or 'plain'}:{o}" for o in r.get("outcomes", [])][:40]
+            r["samples"] = []
+            res.merge_worker(r)
+    res.set("host_environments", len(configs))
+
+
+def replay_in_host(data, module, func, units):
+    h = data.get("host_environment")
+    r = run_in_flagged_child(module, func, units, tuple(h["flags"]), env_extra=h["env"])
+    bad = [v for v in r.get("viol", []) if v.get("kind") == data.get("kind")]
+    return bool(bad), (str(bad[0].get("why", bad[0].get("observed")))[:300] + f" [host {h}]" if bad else f"no violation under {h}")
+
+
+def library_env_names():
+    """names of environment variables the library's own source mentions (static scan of the working tree):
+    a process in which they are set to junk must behave like any other"""
+    import re
+
+    rx = re.compile(r"""(?:environ(?:\.get|\.setdefault|\.pop)?\s*[\[(]\s*|getenv\s*\(\s*)[rbu]?['"]([A-Za-z_][A-Za-z0-9_]*)['"]""")
+    names = set()
+    root = os.path.join(REPO, "src", "pyab_experiment")
+    for d, _dirs, files in os.walk(root):
+        for f in files:
+            if f.endswith(".py"):
+                try:
+                    names.update(rx.findall(open(os.path.join(d, f), encoding="utf-8", errors="replace").read()))
+                except OSError:
+                    pass
+    return sorted(names)
